@@ -74,6 +74,25 @@ pub fn gen_case(prop: &str, seed: u64, tier: &str, run: u64) -> Case {
             p.w_read = 10;
             p.n_choices = vec![1, 1, 2, 3, 4, 5, 7, 10, 10_000];
         }
+        "C03" if rng.chance(1, 12) => {
+            // a history long enough for the segment id to gain a digit (9 -> 10): puts only on few
+            // keys so that every operation is one version; the crash cuts concentrate on the last
+            // operations, i.e. on the roll-over into segment 10 and its checkpoint
+            p = crash_profile(thorough);
+            let n = *rng.pick(&[2u64, 2, 3]);
+            p.n_choices = vec![n];
+            p.min_ops = (10 * n + 1) as usize;
+            p.max_ops = (10 * n + 3) as usize;
+            p.w_abort = 0;
+            p.w_remove = 0;
+            p.w_remove_range = 0;
+            p.w_checkpoint = 0;
+            p.w_reopen = 0;
+            p.max_keys = 3;
+            p.big_contents = false;
+            p.big_keys = false;
+            mode = Mode::Crash { cuts: CutSel::All { max: 90, sseed: rng.next() }, depth: 1, suffix_every: 0, verify: rng.chance(1, 2) };
+        }
         "C03" => {
             p = crash_profile(thorough);
             mode = Mode::Crash {
